@@ -689,6 +689,13 @@ async fn apply_lookup_edit(inst: &Inst, u: &AkdLabel, p: &mut LookupProof, tok: 
             let v: u64 = v.parse().map_err(|_| None)?;
             p.existence_vrf_proof = vrf_bytes(&inst.cfg, &u2, fr, v).await.ok_or(Some(()))?;
         }
+        ["fresh.len", n] => {
+            let n: u32 = n.parse().map_err(|_| None)?;
+            let l = p.freshness_proof.label;
+            p.freshness_proof = inst.gen_nonmem(NodeLabel { label_val: l.label_val, label_len: n }).await.ok_or(Some(()))?;
+        }
+        ["exist.len", n] => p.existence_proof.label.label_len = n.parse().map_err(|_| None)?,
+        ["marker.len", n] => p.marker_proof.label.label_len = n.parse().map_err(|_| None)?,
         ["swap.exist", u2] | ["swap.marker", u2] | ["swap.fresh", u2] => {
             let u2 = AkdLabel(parse_hex(u2).ok_or(None)?);
             let (q, _, _) = inst.lookup(&u2).await.ok_or(Some(()))?;
@@ -814,6 +821,27 @@ async fn apply_hist_edit(inst: &Inst, u: &AkdLabel, p: &mut HistoryProof, tok: &
             if let Some(np) = p.non_existence_of_future_marker_proofs.get(i).cloned() {
                 let forged = anchored_at(inst, np.label, k).await.ok_or(Some(()))?;
                 p.non_existence_of_future_marker_proofs[i] = forged;
+            }
+        }
+        ["future.len", i, n] => {
+            let (i, n) = (num(i)?, num(n)? as u32);
+            if let Some(np) = p.non_existence_of_future_marker_proofs.get(i).cloned() {
+                let forged = inst.gen_nonmem(NodeLabel { label_val: np.label.label_val, label_len: n }).await.ok_or(Some(()))?;
+                p.non_existence_of_future_marker_proofs[i] = forged;
+            }
+        }
+        ["past.len", i, n] => {
+            let n = num(n)? as u32;
+            if let Some(m) = p.existence_of_past_marker_proofs.get_mut(num(i)?) {
+                m.label.label_len = n;
+            }
+        }
+        ["prev.len", i, n] => {
+            let n = num(n)? as u32;
+            if let Some(x) = p.update_proofs.get_mut(num(i)?) {
+                if let Some(m) = x.previous_version_proof.as_mut() {
+                    m.label.label_len = n;
+                }
             }
         }
         ["past.rootproof", i] => {
